@@ -36,7 +36,7 @@ import vlib
 from vlib import b2f, b2fs, f2b, fs2b
 
 ID = "C11"
-GEN = ["Params", "Leaves", "Combinators", "Wrappers", "TriangularGen"]
+GEN = ["Params", "Leaves", "Combinators", "Wrappers", "TriangularGen", "PermGen"]
 RULE = ("real flowjax objects (Affine, Scale, Normal, StudentT, TriangularAffine both orientations, RationalQuadraticSpline over "
         "knots/interval/softmax_adjust/min_derivative, _UnconditionalPlanar and Planar, VmapMixture, WeightNormalization built directly, "
         "_affine_with_min_scale) whose raw trainable arrays are overwritten with values from the ±50 box (all-(+50), all-(-50), "
@@ -367,6 +367,8 @@ def corr(c, tier, rng):
     #      Where, BijectionReparam constructor + unwrap) against the real `unwrap` (shared with C12)
     from props import wrapgen
     wrapgen.corr_generated(c, tier, rng)
+    from props import permgen
+    permgen.corr_generated(c, tier, rng, methods=("t",))  # the GENERATED Permute constructor (Gen/PermGen.lean)
     from props import planar_tri
     planar_tri.corr_triangular(c, tier, rng, methods=("t",))  # incl. the GENERATED TriangularAffine (`gtriaff`) and its constructor
 
